@@ -236,12 +236,12 @@ func (s *sut) trigger(node string) {
 	}
 }
 
-func (s *sut) apply(ev event) {
+func (s *sut) apply(ev event) (err error) {
 	switch ev.kind {
 	case 0:
-		_ = s.hni.UpdateHyperNode(s.w.hyperNode(ev.obj))
+		err = s.hni.UpdateHyperNode(s.w.hyperNode(ev.obj))
 	case 1:
-		_ = s.hni.DeleteHyperNode(hnName(ev.id))
+		err = s.hni.DeleteHyperNode(hnName(ev.id))
 	case 2:
 		s.indexer.Add(s.w.k8sNode(ev.id))
 		s.trigger(nodeName(ev.id))
@@ -249,6 +249,24 @@ func (s *sut) apply(ev event) {
 		s.indexer.Delete(s.w.k8sNode(ev.id))
 		s.trigger(nodeName(ev.id))
 	}
+	return err
+}
+
+// tierInverted: a stored HyperNode claims a stored member whose tier is not below its own
+func tierInverted(m api.HyperNodeInfoMap) bool {
+	for _, info := range m {
+		if info.HyperNode == nil {
+			continue
+		}
+		for _, mem := range info.HyperNode.Spec.Members {
+			if mem.Type == topologyv1alpha1.MemberTypeHyperNode && mem.Selector.ExactMatch != nil {
+				if c, ok := m[mem.Selector.ExactMatch.Name]; ok && c.Tier() >= info.Tier() {
+					return true
+				}
+			}
+		}
+	}
+	return false
 }
 
 func claimedTwice(m api.HyperNodeInfoMap) bool {
@@ -364,22 +382,10 @@ func encView(h *api.HyperNodesInfo) []int64 {
 type flags struct {
 	amb            bool // Go map order may matter: compared by the laws only
 	sawNotReady    bool // Ready() was false after some event
-	labelStale     bool // a node event that the cache does not propagate to a HyperNode whose selector matches the node
-	deletedClaimed bool // a HyperNode was deleted while another one still listed it as a member
-	tier0Fast      bool // a tier-0 member-less object arrived for a name that only had a placeholder entry
-}
-
-// placeholderTier0: ev updates, with tier 0, a name that has an
-// entry (created by addChild for a not yet seen member) but is in no tier set
-func (s *sut) placeholderTier0(ev event) bool {
-	if ev.kind != 0 || ev.obj.tier != 0 {
-		return false
-	}
-	name := hnName(ev.obj.name)
-	if _, ok := s.hni.HyperNodes()[name]; !ok {
-		return false
-	}
-	return !s.hni.HyperNodesSetByTier()[0].Has(name)
+	selStale       bool // D2: a node event the cache does not propagate to a HyperNode whose selector matches the node
+	deletedClaimed bool // D5: a HyperNode was deleted while another one still listed it as a member
+	failedDelete   bool // D6: a DeleteHyperNode returned an error (the entry stays, marked as being deleted)
+	tierInversion  bool // D7: at some point a stored HyperNode claimed a member whose tier is not below its own
 }
 
 // selStale: node event for n, and some stored HyperNode has a selector member
@@ -442,17 +448,20 @@ func runHistory(w *world, evs []event, obs func(i int, s *sut)) (s *sut, fl flag
 			fl.amb = true
 		}
 		if (ev.kind == 2 || ev.kind == 3) && s.selStale(ev.id, ev.kind == 3) {
-			fl.labelStale = true
+			fl.selStale = true
 		}
 		if ev.kind == 1 && s.claimedBySomeone(ev.id) {
 			fl.deletedClaimed = true
 		}
-		if s.placeholderTier0(ev) {
-			fl.tier0Fast = true
+		if err := s.apply(ev); err != nil && ev.kind == 1 {
+			fl.failedDelete = true
 		}
-		s.apply(ev)
-		if claimedTwice(s.hni.HyperNodes()) {
+		after := s.hni.HyperNodes()
+		if claimedTwice(after) {
 			fl.amb = true
+		}
+		if tierInverted(after) {
+			fl.tierInversion = true
 		}
 		if !s.hni.Ready() {
 			fl.sawNotReady = true
@@ -707,59 +716,42 @@ func laws(sel int, in, got []int64, law func(lsel int, lin []int64, sig string))
 		}
 		f, ffl := runHistory(&world{sel: w.sel, selID: w.selID, nodes: nodes}, fevs, nil)
 		fresh := encView(f.hni)
-		// signatures of the documented findings (docs/notes/C14.md)
-		sigStale, sigReady, sigReadyFresh, sigFreshView := "", "", "", ""
-		const d1 = "C14-D1-ready-restored-while-bad-membership-persists"
-		const d4 = "C14-D4-tier0-placeholder-never-indexed"
-		switch {
-		case fl.labelStale:
-			sigStale = "C14-D2-selector-members-stale-after-node-event"
-		case fl.tier0Fast:
-			sigStale = d4
-		case fl.sawNotReady:
-			sigStale = d1 // a failed rebuild is never repaired once Ready is restored
-		}
-		switch {
-		case ffl.tier0Fast:
-			sigFreshView = d4
-		case ffl.sawNotReady:
-			sigFreshView = d1
-		}
-		sigLive := ""
-		if fl.sawNotReady {
-			sigReady = d1
-			sigLive = "C14-N1-not-ready-on-consistent-final-after-failed-event"
-		} else if fl.deletedClaimed {
-			sigReady = "C14-D5-double-claim-undetected-after-child-delete"
-		}
-		if ffl.sawNotReady {
-			sigReadyFresh = d1
-		}
 		eo := []int64{int64(len(objs))}
 		for _, o := range objs {
 			eo = append(eo, encObj(o)...)
 		}
-		law(101, cat(encEnv(w, nodes), eo, incr), sigStale)
-		sig102 := sigStale
-		if sig102 == "" {
-			sig102 = sigFreshView
+		// Signatures of the documented findings (docs/notes/C14.md).  A signature is attached
+		// only to the law the finding explains; 111/112 re-check everything D2 does not touch.
+		const d2 = "C14-D2-selector-members-stale-after-node-event"
+		const d5 = "C14-D5-double-claim-undetected-after-child-delete"
+		const d6 = "C14-D6-failed-delete-leaves-entry-marked-deleting"
+		const d7 = "C14-D7-bad-membership-invisible-under-tier-inversion"
+		pick := func(f flags, order ...string) string {
+			for _, sg := range order {
+				switch {
+				case sg == d2 && f.selStale, sg == d5 && f.deletedClaimed, sg == d6 && f.failedDelete, sg == d7 && f.tierInversion:
+					return sg
+				}
+			}
+			return ""
 		}
-		law(102, cat(eo, incr, fresh), sig102)
-		law(105, cat(eo, incr), sigLive)
-		law(106, cat(eo, incr), sigReady)
-		law(101, cat(encEnv(w, nodes), eo, fresh), sigFreshView)
-		law(106, cat(eo, fresh), sigReadyFresh)
+		both := flags{selStale: fl.selStale || ffl.selStale, failedDelete: fl.failedDelete || ffl.failedDelete,
+			tierInversion: fl.tierInversion || ffl.tierInversion}
+		law(101, cat(encEnv(w, nodes), eo, incr), pick(fl, d2, d6, d7))
+		law(111, cat(encEnv(w, nodes), eo, incr), pick(fl, d6, d7))
+		law(102, cat(eo, incr, fresh), pick(both, d2, d6, d7))
+		law(112, cat(eo, incr, fresh), pick(both, d6, d7))
+		law(105, cat(eo, incr), pick(fl, d6))
+		law(106, cat(eo, incr), pick(fl, d6, d7, d5))
+		law(101, cat(encEnv(w, nodes), eo, fresh), pick(ffl, d2, d6, d7))
+		law(106, cat(eo, fresh), pick(ffl, d6, d7, d5))
 	case 2:
 		p := last
 		if p == nil {
 			return
 		}
 		for i, q := range p.queries {
-			sig := ""
-			if p.dangling {
-				sig = "C14-D3-gradient-nil-deref-on-dangling-child"
-			}
-			law(107, []int64{vh.B(p.crashed[i])}, sig)
+			law(107, []int64{vh.B(p.crashed[i])}, "")
 			if p.results[i] == nil {
 				continue
 			}
